@@ -682,7 +682,8 @@ func runC15(c *Ctx) {
 		"assignment of the 7 leaves (int string bool float any R0 ext.Plain; exhaustive), random types to depth 5; deeper leaves rotate over the 7 leaves; " +
 		"each type with minimal parentheses in each of the positions param / field / payload / package_info signature " +
 		"(qualified and package-local names) / explicit type argument, and with redundant parentheses in each position (thorough) " +
-		"or in 2 of the 6 positions in rotation (quick); random token spacing; " +
+		"or in 2 of the 6 positions in rotation (quick); the depth-3 and random types take 2 of the 6 positions in rotation for each " +
+		"parenthesisation; random token spacing; " +
 		"non-trivial = at least one constructor; distinct by (position, source text)"
 	c.Res.Exhaustive = true
 	var types []*c15T
@@ -694,6 +695,7 @@ func runC15(c *Ctx) {
 	d1 := c15Depth1All()
 	types = append(types, d1...)
 	c.CountN("depth<=1_every_leaf_assignment", len(d1))
+	nFull := len(types) // these go to every position; the deeper / random ones rotate over the positions
 	if c.Thorough() {
 		n0 := len(types)
 		for _, s := range c15Shapes(3, c15Ctors(false)) {
@@ -716,6 +718,9 @@ func runC15(c *Ctx) {
 			for _, variant := range []string{"minimal", "redundant"} {
 				// quick tier: the redundant-parentheses variant of a type goes to 2 of the 6 positions (rotating)
 				if variant == "redundant" && !c.Thorough() && (ti+pi)%3 != 0 {
+					continue
+				}
+				if ti >= nFull && ((variant == "minimal" && (ti+pi)%3 != 0) || (variant == "redundant" && (ti+pi)%3 != 1)) {
 					continue
 				}
 				u := t.clone()
